@@ -10,6 +10,8 @@ from vlib import boot
 from vlib.common import Sub, Violation, call, O, G
 
 pyrepseq = boot.import_pyrepseq()
+from pyrepseq.metric import WeightedLevenshtein  # noqa: E402
+from pyrepseq.metric import tcr_metric as TM  # noqa: E402
 
 PROPERTY = "C15"
 RULE = ("graph: neighbour lists produced by the search functions themselves (nearest_neighbor / kdtree / hash_based, Levenshtein "
@@ -34,6 +36,9 @@ def selftest():
 def search(case):
     seqs, k = case["seqs"], case["k"]
     cd = "hamming" if case.get("hamming") else None
+    if case["engine"] == "kdtree_max_returns":
+        # each sequence reports only its closest neighbours: a neighbour list that is NOT symmetric
+        return pyrepseq.kdtree(list(seqs), max_edits=k, custom_distance=cd, max_returns=case.get("max_returns", 1))
     f = {"nearest_neighbor": pyrepseq.nearest_neighbor, "kdtree": pyrepseq.kdtree, "hash_based": pyrepseq.hash_based}[case["engine"]]
     return f(list(seqs), max_edits=k, custom_distance=cd)
 
@@ -47,7 +52,10 @@ def check_graph(case, rec):
     big = [c for c in comps if len(c) > 1]
     iso = [c for c in comps if len(c) == 1]
     method = case["method"]
-    cl = [method, case["nodes_as"], case["adj_as"], "no_neighbours" if not edges else "has_neighbours"]
+    eset = set(edges)
+    asym = any((b, a) not in eset for a, b in eset)
+    cl = [method, case["nodes_as"], case["adj_as"], "no_neighbours" if not edges else "has_neighbours",
+          "asymmetric_list" if asym else "symmetric_list"]
     rec.note(case, len(big) >= 2 and len(iso) >= 1, cl)
     if case["nodes_as"] == "list":
         nodes = list(seqs)
@@ -120,7 +128,24 @@ def check_hier(case, rec):
         items = rows
         d = lambda r, s: (O.lev(r[0], s[0]) if "A" in cols else 0) + (O.lev(r[1], s[1]) if "B" in cols else 0)  # noqa: E731
     v = pdvec(items, d)
-    rec.note(case, len(set(v.tolist())) >= 3, [kind, case["method"], case["criterion"]])
+    rec.note(case, len(set(v.tolist())) >= 3, [kind, case["method"], case["criterion"], "explicit_metrics" if case.get("metrics") else "default_metric"])
+    for mw in case.get("metrics", []):
+        # explicit metric objects of one class with different weights, one after the other on the same data
+        if kind == "strings":
+            mobj = WeightedLevenshtein(*mw)
+            dm = lambda a, b, mw=mw: O.wlev(a, b, *mw)  # noqa: E731
+        else:
+            mobj = TM.Cdr3Levenshtein(alpha_weight=mw[0], beta_weight=mw[1], substitution_weight=mw[2])
+            if cols != "AB":
+                continue
+            dm = lambda r, s_, mw=mw: mw[0] * O.wlev(r[0], s_[0], 1, 1, mw[2]) + mw[1] * O.wlev(r[1], s_[1], 1, 1, mw[2])  # noqa: E731
+        vm = pdvec(items, dm)
+        Zm, cm = call("hierarchical_clustering", pyrepseq.hierarchical_clustering, obj, metric=mobj, linkage_kws=dict(lk), cluster_kws=dict(ck))
+        Zmw = hc.linkage(vm, **lk)
+        if not np.array_equal(np.asarray(Zm), Zmw):
+            raise Violation("hier-linkage-explicit-metric", f"metric weights {mw}: linkage differs from SciPy on that metric's distances")
+        if not np.array_equal(np.asarray(cm), hc.fcluster(Zmw, **ck)):
+            raise Violation("hier-clusters-explicit-metric", f"metric weights {mw}: clusters differ from SciPy on that metric's distances")
     kwargs = {}
     if not case.get("use_defaults"):
         kwargs = dict(linkage_kws=lk, cluster_kws=ck)
@@ -154,7 +179,7 @@ def check_hier(case, rec):
 def graph_case(draw, tier="quick"):
     alpha = draw(st.sampled_from(["ACD", G.AA, G.AA]))
     hamming = draw(st.integers(0, 3)) == 0
-    engine = draw(st.sampled_from(["nearest_neighbor", "nearest_neighbor", "kdtree", "hash_based"]))
+    engine = draw(st.sampled_from(["nearest_neighbor", "nearest_neighbor", "kdtree", "hash_based", "kdtree_max_returns"]))
     k = draw(st.sampled_from([1, 1, 2]))
     if engine == "hash_based":
         k = 1
@@ -169,6 +194,9 @@ def graph_case(draw, tier="quick"):
             "adj_as": draw(st.sampled_from(["list", "ndarray"])), "py_seed": draw(st.integers(0, 10 ** 6))}
     if hamming:
         case["hamming"] = True
+    if engine == "kdtree_max_returns":
+        case["max_returns"] = draw(st.sampled_from([1, 1, 2]))
+        case["k"] = draw(st.sampled_from([1, 2]))
     return case
 
 
@@ -191,6 +219,8 @@ def hier_case(draw, tier="quick"):
         case["rows"] = [[fa[i], fb[i]] for i in range(n)]
         case["cols"] = draw(st.sampled_from(["A", "B", "AB"]))
         case["index"] = draw(st.sampled_from(["default", "str", "rev", "dup"]))
+    if draw(st.booleans()):
+        case["metrics"] = draw(st.lists(st.sampled_from([[1, 1, 1], [1, 1, 2], [2, 1, 1], [1, 3, 1], [3, 2, 2]]), min_size=2, max_size=3))
     return case
 
 
